@@ -72,6 +72,30 @@ type Put struct {
 	// Bd (OxiaDb.tla: BigOf / Delta20): deltas that do not fit a TLC integer, as decimal digits; parallel to
 	// Deltas, a non-empty element takes precedence over Deltas[i].  Absent for puts with small deltas.
 	Bd []Key `json:"bd,omitempty"`
+	// Pk (OxiaDb.tla: PkVal): the VALUE of the partition key when it is present (Pkey); a pointer so that
+	// "present with the value \"\"" (`"pk":[]`) and "field not given" (the value "pk") stay different.
+	Pk *Key `json:"pk,omitempty"`
+	// Cidp (OxiaDb.tla: CidPresent): the client identity is present although Cid is empty.
+	Cidp bool `json:"cidp,omitempty"`
+}
+
+// PartitionKey is the value of the partition key of a put that carries one.
+func (p *Put) PartitionKey() string {
+	if p.Pk != nil {
+		return p.Pk.S()
+	}
+	return "pk"
+}
+
+// SetPartitionKey makes the partition key present with the given value.
+func (p *Put) SetPartitionKey(v string) {
+	p.Pkey = true
+	if v == "pk" {
+		p.Pk = nil
+		return
+	}
+	k := K(v)
+	p.Pk = &k
 }
 
 // Delta is the i-th sequence delta of the put as the uint64 the request carries.
@@ -317,11 +341,11 @@ func (r *Req) Proto() *proto.WriteRequest {
 		if p.Sess != NoSess {
 			q.SessionId = pb.Int64(int64(p.Sess))
 		}
-		if p.Cid != "" {
+		if p.Cid != "" || p.Cidp {
 			q.ClientIdentity = pb.String(p.Cid)
 		}
 		if p.Pkey {
-			q.PartitionKey = pb.String("pk")
+			q.PartitionKey = pb.String(p.PartitionKey())
 		}
 		for j := range p.Deltas {
 			q.SequenceKeyDelta = append(q.SequenceKeyDelta, p.Delta(j))
@@ -420,6 +444,12 @@ func (r *Req) String() string {
 		}
 		if len(p.Deltas) > 0 {
 			fmt.Fprintf(&sb, ",deltas=%s,pkey=%v", p.DeltasString(), p.Pkey)
+		}
+		if p.Pkey && p.Pk != nil {
+			fmt.Fprintf(&sb, ",pk=%s", p.Pk.Q())
+		}
+		if p.Cidp {
+			fmt.Fprintf(&sb, ",cid=%q(present)", p.Cid)
 		}
 		for _, ix := range p.Idx {
 			fmt.Fprintf(&sb, ",%s:%s", ix.N.S(), ix.K.S())
